@@ -49,9 +49,18 @@ CHECKS = {
  "C15": dict(cat="exploration", sec="4 (C15)", technique="byte-level and grammar-based generated inputs (random bytes, mutated corpus, token soup, exhaustive token sequences, node-dense valid programs, giant lists) in crash-isolated workers with debug assertions and overflow checks; reference-lexer token oracle; sanitizer fuzz targets in the thorough tier",
    text="Generated byte strings of every kind (invalid UTF-8, NUL, extreme token density, 30k-element lists, sizes straddling the 65536-token heuristic) are pushed through lex -> parse -> errors -> build_header -> all XML dumps in isolated worker processes; any panic, abort or stack overflow is a failure keyed by site; the published token vector must equal the reference lexer's; valid-by-construction modules must be accepted (or E103 above the heuristic) and planted invalid lexemes rejected.",
    note="Exploration only: absence of crashes on the inputs run. E102 and the 2^24 token cap are out of reach; hangs are observed up to a watchdog (exit 2)."),
+ "C16": dict(cat="exploration", sec="4 (C16)", technique="grammar-based generation of syntactically valid modules; differential comparison of canonical syntax terms built from the first-generation AST and from the second-generation XML dump (strict reader); exhaustive operator-pair table; corpus replay",
+   text="Generated modules covering every documented production, decorated well-typed programs in random layouts, the repository corpus and all 100 operator pairs are parsed by both generations: the second-generation parser must accept what the first accepts, its XML dump must be balanced and free of MALFORMED nodes, and its canonical term must equal the first generation's (declarations, flags, names, types, statement order, operand order and associativity, nesting, literal values, address depths, reference steps).",
+   note="Trusted: the canonical-term converters in harness/src/synterm.rs. Normalisations: literal spelling, folded minus on signed literals, `return:` placement, builtin `!`."),
+ "C17": dict(cat="exploration", sec="4 (C17)", technique="exhaustive pub/private masks over a pool of declaration shapes + grammar-generated modules; round-trip oracle: header XML vs parse of the expected public-interface text",
+   text="For every pub/private mask (n <= 8 quick, <= 10 thorough, all rotations of a 10-shape pool) and for random modules, build_header() must equal — as canonical terms — the parse of the module restricted to its pub declarations with `pub` cleared and bodies removed, have exactly as many declarations as there are pub ones, and contain no private declaration's name.",
+   note="Modules not accepted by the second-generation parser are discarded (C16)."),
  "C19": dict(cat="exploration", sec="4 (C19)", technique="seeded generation of the unit under test (hook H1) checked against two real lexers and a reference lexer; CLI runs of `penne fuzz tokens`",
    text="fill_to_capacity_with_tokens(95, ..) is run for kb in 1..=64 under runner-drawn RNG seeds, and through the real binary; every output must be valid UTF-8 of >= 1000*kb bytes with zero lexical errors for the alpha lexer, the delta lexer and the reference lexer.",
    note="Library runs replace rand::rng() by a seeded StdRng through the cfg(penne_verif) hook; the sampled distributions are those of the code under test."),
+ "C20": dict(cat="exploration", sec="4 (C20)", technique="grammar-generated builtin-free modules and corpus files through parse -> rebuild -> parse -> rebuild; tree equality modulo locations and literal spelling; byte-identical second rebuild",
+   text="t1 = parse(src); r1 = rebuild(t1); t2 = parse(r1) must be error-free with canon(t1) == canon(t2), and rebuild(t2) must equal r1 byte for byte, for generated modules with and without structures and for every builtin-free corpus file.",
+   note="Recorded findings: structures and structure-typed names are rebuilt with '#' markers; the structure-free class continues the search behind them."),
 }
 NOT_YET = "check not built yet in this revision of the framework (planned in DESIGN.md section 4)"
 hooks_commits = subprocess.run(["git", "-C", "/repo", "log", "--format=%H %s"], capture_output=True, text=True).stdout.splitlines()
